@@ -772,7 +772,7 @@ func c01Progress(c *Ctx, r *RuleResult, m *parserModel, f *parserFlow) {
 				if !ok {
 					continue
 				}
-				cl := mc.Fn.(*ssa.Function)
+				cl := unwrapThunk(mc.Fn.(*ssa.Function))
 				if a.poeFunc(cl, kval{}) {
 					r.OK("callback "+p.FuncName(cl), "consumes a token or records an error on every path")
 				} else {
